@@ -25,6 +25,10 @@ def run(ctx) -> None:
     ctx.guard("C18.group-integrity", grouping)
     ctx.guard("C18.one-permutation", sorting)
     ctx.guard("C18.mode", optimize)
+    from .common import concrete_devices
+
+    for dev in concrete_devices(ctx):
+        ctx.guard("C18.wiring", wiring, dev)
     from .common import memo_rule, none_concat_rule
 
     ctx.guard("C18.mode", memo_rule, "C18.no-cache", ("worklists/utils.py",))
@@ -546,3 +550,33 @@ def optimize(ctx) -> None:
                   f"explicit choice not respected: partition_by={explicit_bad[0][0]!r}, source trough={explicit_bad[0][1]}, destination trough={explicit_bad[0][2]} gives {explicit_bad[0][3]} {explicit_bad[0][4]!r}" if explicit_bad else "", where=w)
     ctx.rep.check(not bogus_bad, rule, f"{f.qualname}/membership", "any other mode name raises ValueError in all scenarios",
                   f"partition_by={bogus_bad[0][0]!r} is not rejected with ValueError (result: {bogus_bad[0][3]} {bogus_bad[0][4]!r})" if bogus_bad else "", where=w)
+
+
+def wiring(ctx, dev) -> None:
+    """The mode the caller of transfer() asked for is the mode that is used: transfer hands its own `partition_by` (and its
+    own two labwares, in this order) to optimize_partition_by, and what comes back is the mode partition_by_column gets."""
+    rule = "C18.wiring"
+    f = ctx.prog.find_method(dev, "transfer")
+    if f is None:
+        ctx.rep.inconclusive(rule, f"{dev.name}.transfer", "not found")
+        return
+    fv = ctx.fv(f, dev)
+    cb = f"{dev.name}.transfer"
+    opts = fv.calls_func("optimize_partition_by")
+    parts = fv.calls_func("partition_by_column")
+    if len(opts) != 1 or len(parts) != 1:
+        ctx.rep.check(None if (opts or parts) else False, rule, cb + "/calls", "", f"expected one call of optimize_partition_by and one of partition_by_column, found {len(opts)} / {len(parts)}", where=f.where())
+        return
+    b = fv.bind_args(opts[0]) or {}
+    w = f.where(opts[0].call)
+    for pname, want in (("source", "source"), ("destination", "destination"), ("partition_by", "partition_by")):
+        v = b.get(pname)
+        t = fv.res.resolve(v, opts[0].node) if v is not None else None
+        ctx.rep.check(t is not None and is_name(t, want), rule, f"{cb}/optimize[{pname}]", f"optimize_partition_by gets transfer's own `{want}`",
+                      f"optimize_partition_by receives `{show(t) if t is not None else 'its default'}` as `{pname}` instead of transfer's `{want}` argument"
+                      + (": an explicitly chosen mode is ignored (and an invalid one is not rejected)" if pname == "partition_by" else ""), where=w)
+    pb = (fv.bind_args(parts[0]) or {}).get("partition_by")
+    t = fv.res.resolve(pb, parts[0].node) if pb is not None else None
+    ok = t is not None and isinstance(t, ast.Call) and call_fname(t) == "optimize_partition_by"
+    ctx.rep.check(ok, rule, cb + "/mode-used", "partition_by_column uses the mode that optimize_partition_by returned",
+                  f"partition_by_column is called with the mode `{show(t)[:50] if t is not None else None}`, not with the result of optimize_partition_by", where=f.where(parts[0].call))
